@@ -11,4 +11,53 @@ func (fc *FuncCtx) lockEffects(st *State, call *ast.CallExpr, fn *types.Func, ar
 
 func (fc *FuncCtx) lockCheck(st *State, e ast.Expr, mode string, n ast.Node) {}
 
-func (fc *FuncCtx) allocCheck(st *State, size Term, elem types.Type, n ast.Node) {}
+// allocCheck (C02): a dynamically sized allocation must be bounded by a constant (default 2048
+// elements, or the function's `opt allocbound N`), never by an unchecked wire field.
+func (fc *FuncCtx) allocCheck(st *State, size Term, elem types.Type, n ast.Node) {
+	if _, ok := isLiteral(size.S); ok {
+		return
+	}
+	bound := "2048"
+	if fc.contract != nil && fc.contract.Opts["allocbound"] != "" {
+		bound = fc.contract.Opts["allocbound"]
+	}
+	fc.oblige(st, "alloc.bound", "", "(<= "+size.S+" "+bound+")", n, "allocation size is bounded by "+bound+" elements (not by an unchecked length field)")
+}
+
+// globalKey returns pkgpath.name when e denotes a package-level variable.
+func (fc *FuncCtx) globalKey(e ast.Expr) string {
+	e = unparen(e)
+	var obj types.Object
+	switch x := e.(type) {
+	case *ast.Ident:
+		obj = fc.info.ObjectOf(x)
+	case *ast.SelectorExpr:
+		obj = fc.info.ObjectOf(x.Sel)
+	}
+	v, ok := obj.(*types.Var)
+	if !ok || v.Pkg() == nil || fc.isLocal(v) || v.IsField() {
+		return ""
+	}
+	return v.Pkg().Path() + "." + v.Name()
+}
+
+func (fc *FuncCtx) objInvTerm(st *State, oi *ObjInv, v Term, n ast.Node) string {
+	env := fc.w.newEnv(oi.Pkg)
+	env.vars[oi.Elem] = v
+	fc.bindGlobals(st, env, &Contract{Pkg: oi.Pkg})
+	return fc.cevalIn(env, oi.Clause, n).S
+}
+
+// chanSend: the channel invariant is an obligation on the value sent.
+func (fc *FuncCtx) chanSend(st *State, ch ast.Expr, v Term, n ast.Node) {
+	if oi := fc.w.ChanInvs[fc.globalKey(ch)]; oi != nil {
+		fc.oblige(st, "chan.inv", "", fc.objInvTerm(st, oi, v, n), n, "value sent on "+exprStr(ch)+" satisfies the channel invariant: "+oi.Clause.Text)
+	}
+}
+
+// chanRecvAssume: a received value satisfies the channel invariant.
+func (fc *FuncCtx) chanRecvAssume(st *State, ch ast.Expr, v Term, ok string, n ast.Node) {
+	if oi := fc.w.ChanInvs[fc.globalKey(ch)]; oi != nil {
+		fc.assume(st, implies(ok, fc.objInvTerm(st, oi, v, n)))
+	}
+}
